@@ -3,6 +3,20 @@
 import json, os, re, shutil, glob
 SRC = '/tmp/seed-out'; DST = os.path.join(os.path.dirname(os.path.dirname(os.path.abspath(__file__))), 'seeded')
 NOTES = {
+ 'C01-15': 'strengthened: missed at first (the reader entry points look for the byte-order mark in local variables before the machine starts, so no state key shows it and the search merged EF BB xx with every other text); C01 gained the byte-order-mark family: the mark, its prefixes and near misses (one byte replaced) in front of short texts, []byte and every split of the first six bytes into reads, under the reader answers. This exposed a genuine defect (a mark after an empty first read was rejected; repaired)',
+ 'C03-13': 'strengthened: missed at first (no quoted string spelled like a literal that ends on the slow string path); strings spelled like other tokens (true, null, numbers, containers), plain and with one character as a \\uXXXX escape, added to the token texts of C03 and as a family of C02',
+ 'C03-14': 'the escape \\u0080 in oj.Tokenizer only: not caught by C03 (no such escape among its token texts); caught by C02 (every single \\uXXXX escape through every front-end, oj.Tokenizer among them since the fourth round)',
+ 'C04-13': 'a reuse defect (what a Writer derives from its options is not recomputed when only Sort or Tab changes): the text of each call on a fresh Writer is right, so not the business of C04; caught by C07 after its writer alphabets gained one option at a time (set:Sort, set:Indent, set:Tab) and an object with two members',
+ 'C05-14': 'the gen.Array copy of the slice code: not caught by C05 (simple data); caught by C11 (representations against Get on the simple form)',
+ 'C05-15': 'a filter-script defect (float == int truncates): not caught by C05 (integer data); caught by C12 (operator matrix, l=float r=int)',
+ 'C06-13': 'a fault that needs two struct types with one short name recomposed in a particular order: not caught by C06 (one target type per call); caught by C16 (history leg over named, same-named and anonymous types)',
+ 'C06-15': 'strengthened: missed at first (printed scripts never hold parentheses that are not needed and the token sequences of C06 are too short for them); C06 and C12 gained the redundant-parentheses family: operand op operand with one or two pairs around either operand and the whole, through NewScript, NewFilter and the path reader (C12 requires the value of the base script). C14 catches it as well',
+ 'C07-13': 'a process-wide plan cache read with the wrong key (sen copy): not caught by C07 (instances, not type caches); caught by C15 (first-use history leg)',
+ 'C07-14': 'strengthened: missed at first (needs Reuse on, a parse, Reuse off, two more parses: five calls); the parsers are now also explored from a second initial state (created with Reuse set) and with the channel form, which switches Reuse off for the call',
+ 'C07-15': 'strengthened: missed at first (only returned values were held on to, not returned errors); every error a call returns is now watched like a value: it must read the same after later calls',
+ 'C08-15': 'strengthened: missed at first (the expectation runs of the race pass had already registered every type, and a type is seen for the first time only once per process); the race pass now empties the plan caches before the concurrent calls start and writes a value of a brand-new struct type (reflect.StructOf) through a tight or indented encoder after every call, and the plan-cache group gained indented struct writes',
+ 'C09-14': 'an accept-set defect of oj.Tokenizer (a top-level number ended by a newline, then a comma): the wrong position is a consequence; caught by C01 (same change as C01-13 in the Validator)',
+ 'C10-15': 'a pooled-parser defect (sen.Parse runs its pooled parser with Reuse set): every round trip on its own is right, so not the business of C10; caught by C07 (pooled kind, returned-value-mutated)',
  'C02-10': 'strengthened: missed by C02 at first (it read events from the []byte entry point only; C03 caught it); C02 now also runs oj.Tokenizer, sen.Tokenizer and sen.Parser through their reader entry points (one-byte reads) and sen.Tokenizer on the whole text',
  'C02-11': 'strengthened: missed by C02 at first (sen.Tokenizer was not among its front-ends; C03 caught it); see C02-10',
  'C02-12': 'strengthened: missed at first by C02, C03, C07 and C08 (no Parser with Reuse set was ever given a channel); C03 gained leg E: every exported parse / tokenize / validate entry point (package functions, Must* and *String forms, methods of fresh and Reuse parsers) x every kind of optional argument x every way a reader ends, against (&Parser{}).Parse of the same package',
